@@ -33,7 +33,12 @@ static COUNTER: std::sync::atomic::AtomicU64 = std::sync::atomic::AtomicU64::new
 
 impl Srv {
     pub fn start(o: &SrvOpts) -> Srv {
-        for _attempt in 0..5 {
+        for _attempt in 0..5 { if let Some(s) = Srv::try_start(o) { return s; } }
+        panic!("could not start server");
+    }
+    /// one attempt; None = lost a port race, the child exited during start-up, or it did not come up in 8 s
+    pub fn try_start(o: &SrvOpts) -> Option<Srv> {
+        {
             let port = free_port();
             let dir = o.dir.clone().unwrap_or_else(|| {
                 let base = std::env::var("VERIF_SCRATCH").unwrap_or("/verif/build/scratch".to_string());
@@ -65,15 +70,15 @@ impl Srv {
                         V::cmd(&[b"VERIF", b"PID"]).wire(&mut w); cl.send(&w);
                         if let Rd::Val(V::Int(pid)) = cl.read(3000) { mine = pid as u32 == child.id(); }
                     }
-                    if mine { return Srv { child, port, dir }; }
-                    let _ = child.kill(); let _ = child.wait(); let _ = std::fs::remove_dir_all(&dir);
+                    if mine { return Some(Srv { child, port, dir }); }
+                    let _ = child.kill(); let _ = child.wait(); if o.dir.is_none() { let _ = std::fs::remove_dir_all(&dir); }
                     break;
                 }
                 if t0.elapsed() > Duration::from_secs(8) { let _ = child.kill(); let _ = child.wait(); break; }
                 std::thread::sleep(Duration::from_millis(5));
             }
         }
-        panic!("could not start server");
+        None
     }
     pub fn alive(&mut self) -> bool { matches!(self.child.try_wait(), Ok(None)) }
     pub fn stop(mut self, keep_dir: bool) {
